@@ -58,6 +58,9 @@ def run(cx):
                     and strip_identity(t[2][3]) == ("static", f"{CR}::SUPPORTED_ALGORITHMS")
                 ob.require(ok, f"sigverify/{ty.split('::')[-1]}/{tr}/tls{ver}", f"{b.path} returns {show(t)[:160]}", b.path, b.loc())
                 rets = [s for bl in b.blocks if not bl.get("cleanup") for s in bl["s"] if s["k"] == "assign" and s["lhs"] == 0]
+                # (the result may be handed on through a temporary - `let r = verify(..); r`, or a helper inlined here - but is
+                # never built here: the origin above is that one call and not a join of alternatives)
+                rets = [s for s in rets if not (s["rv"]["k"] == "use" and s["rv"]["op"].get("k") in ("move", "copy"))]
                 ob.require(not rets and len([c for c in b.calls() if not b.is_cleanup(c.bb)]) == 1, f"sigverify/{ty.split('::')[-1]}/{tr}/tls{ver}/only-path",
                            f"{b.path} has another way to produce its result", b.path, b.loc())
         ob.floor(n, 6, "signature verification bodies", exact=True)
@@ -266,7 +269,7 @@ def run(cx):
         # on every way of producing it (a join of alternatives is accepted only if each one is the id read from this connection)
         palts = list(strip_identity(pid)[1]) if strip_identity(pid)[0] == "phi" else [pid]
         ok = is_param(f["inner"], "inner") and all(term_has_call(a_, "anemo::connection::Connection::try_peer_id") and mentions_param(a_, "inner")
-                                                   and any(x[0] == "variant" and x[2] == "Continue" for x in walk(a_)) for a_ in palts)
+                                                   and any(x[0] == "variant" and x[2] in ("Continue", "Ok") for x in walk(a_)) for a_ in palts)
         ob.require(ok, "Connection::new/peer-id-of-same-connection", f"Connection::new builds {show(t)[:200]}", nb.path)
         tb = cx.body("anemo::connection::Connection::try_peer_id")
         to = Origins(tb)
@@ -334,6 +337,14 @@ def run(cx):
         oks = [i for i, bl in enumerate(rb.blocks) if not bl.get("cleanup") for s in bl["s"]
                if s["k"] == "assign" and s["rv"]["k"] == "agg" and s["rv"].get("variant") == "Ok" and str(s["rv"].get("adt", "")).endswith("result::Result")
                and (s["lhs"] == 0 or term_has_call(ro.of_rvalue(s["rv"]), "anemo::network::wire::read_response"))]
+        # (an Ok that only re-wraps the payload of another Ok built in this body - `helper(..).await?` after inlining - is judged
+        # at that inner site: dominance cannot see that the `?` continues only on the helper's Ok)
+        def rewraps(i_):
+            for s_ in rb.blocks[i_]["s"]:
+                if s_["k"] == "assign" and s_["rv"]["k"] == "agg" and s_["rv"].get("variant") == "Ok":
+                    return any(x[0] == "agg" and str(x[2]).endswith("Result::Ok") for op_ in s_["rv"]["ops"] for x in walk(ro.of_operand(op_)))
+            return False
+        oks = [k_ for k_ in oks if not rewraps(k_)]
         ob.require(len(oks) >= 1 and all(rb.dominates(ins[0].bb, k_) for k_ in oks), "outbound/before-return", "PeerId insert does not dominate Ok(response)", rb.path)
         pb = cx.body("anemo::network::peer::Peer::peer_id")
         t = strip_identity(Origins(pb).of_local(0))
